@@ -215,6 +215,7 @@ def replay(iset, memarch, nregions, inputs, ob):
             undo.append((owner, name, owner.__dict__[name]))
             setattr(owner, name, staticmethod(wrapper) if is_static else wrapper)
     exc = None
+    snap0 = module_state_snapshot()
     try:
         try:
             cpu.emulate_cycle()
@@ -223,6 +224,8 @@ def replay(iset, memarch, nregions, inputs, ob):
     finally:
         for o, k2, v2 in undo:
             setattr(o, k2, v2)
+    snap1 = module_state_snapshot()
+    globals_changed = sorted(k for k in snap1 if snap0.get(k) != snap1[k])
     final = MC.read_native(cpu, memarch, nregions)
     for ln in sc.log[:8]:
         lines.append('  access ' + ln)
@@ -392,6 +395,10 @@ def replay(iset, memarch, nregions, inputs, ob):
                 if rw != sw:
                     lines.append('memory writes real %s spec %s' % ([(hex(a), s_, hex(v)) for a, s_, v in rw], [(hex(a), s_, hex(v)) for a, s_, v in sw]))
                 bad = bad or bool(diff) or exc is not None or rw != sw
+    elif kind == 'frame.own':
+        lines.append('module-level mutable state changed by the step: %s' % (globals_changed,))
+        lines.append(ob.get('detail', ''))
+        bad = bool(globals_changed)
     elif kind == 'frame':
         bad = set(vars(cpu)) - {'mem_a_get', 'mem_u_get', 'mem_u_unpriv_get', 'mem_a_set', 'mem_u_set', 'mem_u_unpriv_set',
                                 'translate_address', 'alignment_fault', 'fetch_instruction'} != MC.KNOWN_CPU_ATTRS
@@ -403,3 +410,23 @@ def replay(iset, memarch, nregions, inputs, ob):
 
 def _h(v):
     return hex(v) if isinstance(v, int) and not isinstance(v, bool) else repr(v)
+
+
+def module_state_snapshot():
+    """repr of every module-level mutable object (dict/list/set/bytearray/plain instance) of the armulator package,
+    except the configuration singleton's own state holder handled by C20's creation unit"""
+    import sys
+    import types
+    import enum
+    out = {}
+    for mn, mod in list(sys.modules.items()):
+        if mod is None or not mn.startswith('armulator'):
+            continue
+        for k, v in list(vars(mod).items()):
+            if k.startswith('__'):
+                continue
+            if isinstance(v, (dict, list, set, bytearray)):
+                out['%s.%s' % (mn, k)] = repr(v)[:2000]
+            elif hasattr(v, '__dict__') and not isinstance(v, (type, types.ModuleType, types.FunctionType, enum.Enum)) and not callable(v):
+                out['%s.%s' % (mn, k)] = repr(sorted(vars(v).items(), key=lambda kv: kv[0]))[:4000]
+    return out
